@@ -1,2 +1,174 @@
-From Astisub Require Import Kit.Base.
-Theorem C06_placeholder : True. Proof. exact I. Qed.
+(* C06 -- Teletext-in-TS decoding returns the transmitted subtitle pages and timing.
+
+   Model: Model/Ttx.v + Model/TtxRow.v transcribe teletext.go from the point where the demuxer has delivered the PES
+   payloads of the teletext PID with their times (ReadFromTeletext after PID selection: zero-time filter, first/last
+   time, process / parseDataUnit / parsePacket / parsePacketHeader / parsePacketData / parsePacket28And29, the
+   character decoder with updateCharset, teletextPage.parse, parseTeletextRow / appendTeletextLineItem).  Its tables
+   (character sets, national option positions, astikit's Hamming 8/4 and parity decoders, bits.Reverse8) are
+   Gen/TtxTables.v, regenerated from the code on every run.  Specification: Model/TtxSpec.v (encoders and decoders
+   written from ETS 300 706 / EN 300 472, ground-truth schedules, multiplexing choices, the cues a schedule denotes).
+   The demuxer (astits) is a library contract: it delivers PES payloads and PMT descriptors as the muxer wrote them.
+
+   Proved here, for ALL values (no size bounds):
+   - tables: astikit's Hamming table is the standard's nearest-code-word decoder on all 256 bytes (round trip on the
+     16 nibbles, every single error corrected, every double error rejected); the stored cell of a byte is its
+     character under odd parity and bit reversal, 0 otherwise; Reverse8 is an involution; for every entry of
+     teletextCharsets the national option substitution touches exactly the 13 positions;
+   - codecs: data-unit splitting, packet address and page header round trips; the row parser returns exactly the
+     runs of every structured row (junk before the box, one or more start boxes, segments introduced by
+     colour/size codes, end box + junk or none);
+   - stream level (C06_stream_page_given / C06_stream_page_auto): for every ground-truth schedule and every
+     multiplexing in the decidable class mux_ok (mux_ok_auto), however the units are packed into PES packets, the
+     reader returns exactly cues_of schedule: one cue per instance with rows, from its presentation time to the
+     next instance's / the last presentation time, relative to the first; rows in row order, text in the page's
+     national character set, runs split at colour and size codes.  The class allows, between and around our
+     packets: non-subtitle/stuffing units, wrong framing codes, short units, uncorrectable addresses; corrected
+     single-bit Hamming errors anywhere; rows of other magazines; pages of other magazines in parallel mode or
+     with our page number; X/26, X/27, X/30, X/31 of any magazine; X/28 and M/29 that are inert (other magazine,
+     designation code other than 0/4, too short, X/28 format other than 1) or that keep the default character set
+     designation; time-filling and uncorrectable
+     headers; a terminating header of another page (same magazine, or any magazine in serial mode) followed by
+     anything but our header; erase pages;
+   - totality: for every delivered list of arbitrary bytes and times the reader returns a value (never panics).
+   Side conditions (in mux_ok): rows of an instance have distinct numbers; each row is a rowspec_ok structure;
+   X/28 and M/29 packets of the selected magazine that designate a non-default character set are outside the class (the
+   reader then decodes every page with the LAST designation of the stream: see notes/C06.md); parity-failing cells
+   are covered by the cell theorems and the correspondence, not by the run-level statement. *)
+From Coq Require Import List ZArith NArith Bool.
+From Astisub Require Import Kit.Base Kit.Str Gen.TtxTables Model.TtxRow Model.Ttx Model.TtxSpec.
+From Astisub Require Import Proofs.TtxTables Proofs.TtxTotal Proofs.TtxRowProofs Proofs.TtxCodec Proofs.TtxSteps Proofs.TtxStream Proofs.TtxWitness.
+Import ListNotations.
+Open Scope N_scope.
+
+(* ---- tables ---- *)
+(* astikit's Hamming 8/4 table is, on every byte value, the nearest-code-word decoder of ETS 300 706 *)
+Theorem C06_hamming_table : forall b, ham84 b = ham84_dec b.
+Proof. exact ham84_is_spec. Qed.
+Print Assumptions C06_hamming_table.
+Theorem C06_hamming_roundtrip : forall n, n < 16 -> ham84 (ham84_enc n) = Some n.
+Proof. exact ham84_dec_enc. Qed.
+Print Assumptions C06_hamming_roundtrip.
+Theorem C06_hamming_single_error : forall n k, n < 16 -> k < 8 -> ham84 (N.lxor (ham84_enc n) (2 ^ k)) = Some n.
+Proof. exact ham84_single_error. Qed.
+Print Assumptions C06_hamming_single_error.
+Theorem C06_hamming_double_error : forall n j k, n < 16 -> j < 8 -> k < 8 -> j <> k ->
+  ham84 (N.lxor (N.lxor (ham84_enc n) (2 ^ j)) (2 ^ k)) = None.
+Proof. exact ham84_double_error. Qed.
+Print Assumptions C06_hamming_double_error.
+
+(* bit order and parity *)
+Theorem C06_reverse8_involutive : forall b, b < 256 -> rev8 (rev8 b) = b.
+Proof. exact rev8_involutive. Qed.
+Print Assumptions C06_reverse8_involutive.
+Theorem C06_parity_table : forall b, b < 256 -> parity b = (N.land b 127, N.odd (ones8 b)).
+Proof. exact parity_is_spec. Qed.
+Print Assumptions C06_parity_table.
+Theorem C06_cell_table : forall x, ttx_cell x = cell0 x.
+Proof. exact cell_is_spec. Qed.
+Print Assumptions C06_cell_table.
+Theorem C06_cell_roundtrip : forall c, c < 128 -> ttx_cell (par_enc c) = c.
+Proof. exact cell_par_enc. Qed.
+Print Assumptions C06_cell_roundtrip.
+(* a byte failing parity is stored as 0: it contributes no text *)
+Theorem C06_cell_bad_parity : forall x, x < 256 -> N.odd (ones8 x) = false -> ttx_cell x = 0.
+Proof. exact cell_bad_parity. Qed.
+Print Assumptions C06_cell_bad_parity.
+
+(* national option substitution touches exactly the 13 positions, for every entry of teletextCharsets *)
+Theorem C06_national_substitution : forallb entry_subst_ok ttx_charsets = true.
+Proof. exact national_substitution_exact. Qed.
+Print Assumptions C06_national_substitution.
+
+(* ---- codecs ---- *)
+(* a PES payload is split into exactly the data units it was assembled from *)
+Theorem C06_units_roundtrip : forall us, ttx_units (concat (map enc_unit us)) = us.
+Proof. exact units_enc. Qed.
+Print Assumptions C06_units_roundtrip.
+(* magazine, packet number and payload of an encoded packet are decoded as sent *)
+Theorem C06_packet_roundtrip : forall fl mag pkt payload, addr_ok mag pkt = true ->
+  unit_addr (3, enc_packet fl mag pkt payload) = Some (mag, pkt, payload).
+Proof. exact unit_addr_enc. Qed.
+Print Assumptions C06_packet_roundtrip.
+(* page number, serial flag, national option and subtitle flag of an encoded header are decoded as sent *)
+Theorem C06_header_roundtrip : forall h, hdr_ok h = true -> negb ((h_tens h =? 15) && (h_units h =? 15)) = true ->
+  hdr_full (enc_header h) = Some (h_pn h, h_serial h, h_cs h) /\ hdr_c6 (enc_header h) = Some (h_subtitle h).
+Proof. exact hdr_full_enc. Qed.
+Print Assumptions C06_header_roundtrip.
+(* the row parser on the cells of any structured row returns exactly its runs *)
+Theorem C06_row : forall (c : list str) (r : rowspec), length c = 96%nat -> rowspec_ok r = true ->
+  ttx_parse_row c (row_cells r) = Ok (row_runs c r).
+Proof. intros c r Hc Hr. exact (parse_row_encoded c Hc r Hr). Qed.
+Print Assumptions C06_row.
+Example C06_row_example : rowspec_ok ex_row1 = true /\ rowspec_ok ex_row2 = true /\ length (row_cells ex_row1) = 40%nat.
+Proof. repeat split; vm_compute; reflexivity. Qed.
+
+(* ---- stream level ---- *)
+(* the reader is given the page *)
+Theorem C06_stream_page_given : forall (s : sched) (m : mux) (peses : list pes),
+  mux_ok s m = true -> forallb pes_ok peses = true -> flat_map pes_units peses = events s m ->
+  ttx_feed (Z.of_N (s_mag s) * 100 + s_pn s) (map enc_pes peses)
+  = Ok (cues_of s (zero_or (tmin peses None)) (zero_or (tmax peses None))).
+Proof. exact stream_given_page. Qed.
+Print Assumptions C06_stream_page_given.
+(* the reader finds the first subtitle-flagged page *)
+Theorem C06_stream_page_auto : forall (s : sched) (m : mux) (peses : list pes),
+  mux_ok_auto s m = true -> forallb pes_ok peses = true -> flat_map pes_units peses = events s m ->
+  ttx_feed 0 (map enc_pes peses) = Ok (cues_of s (zero_or (tmin peses None)) (zero_or (tmax peses None))).
+Proof. exact stream_auto_page. Qed.
+Print Assumptions C06_stream_page_auto.
+(* a non-trivial schedule and multiplexing satisfy the hypotheses *)
+Example C06_stream_example : mux_ok ex_sched ex_mux = true /\ forallb pes_ok ex_peses = true
+  /\ flat_map pes_units ex_peses = events ex_sched ex_mux /\ length (cues_of ex_sched 900 5000) = 2%nat.
+Proof. split; [exact ex_mux_ok|]. split; [exact (proj1 ex_pes_ok)|]. split; [exact (proj2 ex_pes_ok) | exact (proj1 ex_cues_nonempty)]. Qed.
+
+(* what a standard-conforming multiplexer emits belongs to the classes of the stream theorems *)
+Theorem C06_header_unit : forall fl mag0 h, 1 <= mag0 <= 8 -> hdr_ok h = true ->
+  negb ((h_tens h =? 15) && (h_units h =? 15)) = true ->
+  is_our_header mag0 (h_pn h) (h_cs h) (hdr_unit fl mag0 h) = true
+  /\ exists p, unit_addr (hdr_unit fl mag0 h) = Some (mag0, 0, p) /\ hdr_c6 p = Some (h_subtitle h).
+Proof. exact header_unit_is_ours. Qed.
+Print Assumptions C06_header_unit.
+Theorem C06_row_unit : forall fl mag0 row cells extra, 1 <= mag0 <= 8 -> 1 <= row <= 25 ->
+  length cells = 40%nat -> Forall (fun c => c < 128) cells ->
+  is_our_row mag0 row cells (row_unit fl mag0 row cells extra) = true.
+Proof. exact row_unit_is_ours. Qed.
+Print Assumptions C06_row_unit.
+(* distractors: units of these kinds are in the "cannot matter" class (they never contribute text) *)
+Theorem C06_non_subtitle_units : forall mag0 pn0 id data, id <> 3 ->
+  benign mag0 pn0 (id, data) = true /\ dead_ok mag0 pn0 (id, data) = true /\ unselected_ok (id, data) = true.
+Proof. exact other_unit_benign. Qed.
+Print Assumptions C06_non_subtitle_units.
+Theorem C06_other_magazine_rows : forall fl mag0 pn0 mag pkt payload, 1 <= mag <= 8 -> mag <> mag0 -> 1 <= pkt <= 25 ->
+  benign mag0 pn0 (3, enc_packet fl mag pkt payload) = true.
+Proof. exact other_magazine_row_benign. Qed.
+Print Assumptions C06_other_magazine_rows.
+Theorem C06_enhancement_packets : forall fl mag0 pn0 mag pkt payload, 1 <= mag <= 8 -> pkt = 26 \/ pkt = 27 \/ pkt = 30 \/ pkt = 31 ->
+  benign mag0 pn0 (3, enc_packet fl mag pkt payload) = true /\ dead_ok mag0 pn0 (3, enc_packet fl mag pkt payload) = true
+  /\ unselected_ok (3, enc_packet fl mag pkt payload) = true.
+Proof. exact enhancement_benign. Qed.
+Print Assumptions C06_enhancement_packets.
+Theorem C06_default_designation_packets : forall fl mag0 pkt dc rest, 1 <= mag0 <= 8 -> pkt = 28 \/ pkt = 29 -> dc = 0 \/ dc = 4 ->
+  neutral_unit mag0 (3, enc_packet fl mag0 pkt (ham84_enc dc :: 0 :: 0 :: 0 :: rest)) = true.
+Proof. exact default_designation_neutral. Qed.
+Print Assumptions C06_default_designation_packets.
+Theorem C06_parallel_mode_pages : forall fl mag0 pn0 mag h, 1 <= mag <= 8 -> mag <> mag0 -> hdr_ok h = true ->
+  negb ((h_tens h =? 15) && (h_units h =? 15)) = true -> h_serial h = false ->
+  benign mag0 pn0 (hdr_unit fl mag h) = true.
+Proof. exact parallel_header_benign. Qed.
+Print Assumptions C06_parallel_mode_pages.
+Theorem C06_other_page_terminates : forall fl mag0 pn0 mag h, 1 <= mag <= 8 -> hdr_ok h = true ->
+  negb ((h_tens h =? 15) && (h_units h =? 15)) = true -> h_pn h <> pn0 -> (h_serial h = true \/ mag = mag0) ->
+  is_terminator mag0 pn0 (hdr_unit fl mag h) = true.
+Proof. exact other_page_header_terminates. Qed.
+Print Assumptions C06_other_page_terminates.
+
+(* pages whose number has a hexadecimal digit are pages of their own (after the repair of the aliasing defect) *)
+Theorem C06_hex_pages_are_other_pages : forall tens units pn0, tens < 16 -> units < 16 -> (9 < tens \/ 9 < units) ->
+  (0 <= pn0 <= 99)%Z -> page_code tens units <> pn0.
+Proof. exact hex_page_is_other. Qed.
+Print Assumptions C06_hex_pages_are_other_pages.
+
+(* ---- totality ---- *)
+Theorem C06_total : forall page ds site, ttx_feed page ds <> Panic site.
+Proof. exact ttx_feed_no_panic. Qed.
+Print Assumptions C06_total.
